@@ -37,7 +37,7 @@ class G:
 
 
 def mk_users(g, n):
-    us = UIDS[:n]
+    us = UIDS[:n] if n <= len(UIDS) else [1000 + i for i in range(n)]
     return [{'uid': u, 'gid': u + 100 if g.chance(0.3) else u, 'name': 'u%d' % u,
              'shell': g.pick(['/bin/sh', '/bin/bash', '/bin/dash'])} for u in us]
 
@@ -366,6 +366,10 @@ def gen_c11(seed, tier='quick', opts=None):
     t0 = T_BASE + g.rint(0, 86400 * 365 * 8)
     horizon = g.pick([60, 120, 600, 1800])
     nusers = g.rint(2, 5)
+    # more users than the daemon keeps individual checkpoint marks for (16)
+    many = g.chance(opts.get('p_manyusers', 0.1))
+    if many:
+        nusers = g.rint(17, 22)
     users = mk_users(g, nusers)
     peers = [u['uid'] for u in users]
     if g.chance(0.3):
@@ -386,6 +390,16 @@ def gen_c11(seed, tier='quick', opts=None):
     ops = []
     nreq = g.wpick([(g.rint(3, 8), 4), (g.rint(9, 30), 3), (g.rint(31, 80), 1 if tier == 'quick' else 3)])
     t = t0 + 0.5
+    if many:
+        # everybody queues something first
+        for u in users:
+            sp = arith_spec(g, 'u%d@sim' % u['uid'], t, horizon + 400, {'max_occ': 6, 'p_rule2': 0, 'p_rdate': 0, 'where': 'future'})
+            tk = finish_task(len(tasks), sp, lo=t0 - 10)
+            tasks.append(tk)
+            ops.append({'t': round(t, 4), 'op': 'add', 'peer': u['uid'], 'tasks': [tk['id']],
+                        'linger': round(g.uni(0.02, 0.3), 3), 'via': g.pick(['echsq', 'raw'])})
+            t += g.uni(0.01, 0.5)
+        opts['p_cptail'] = 1.0
     for _ in range(nreq):
         t += g.wpick([(g.uni(0.0, 0.01), 2), (g.uni(0.01, 1.0), 3), (g.uni(1, horizon / max(4, nreq) * 2), 3)])
         peer = g.pick(peers)
@@ -399,9 +413,9 @@ def gen_c11(seed, tier='quick', opts=None):
                                                    'where': g.wpick([('future', 6), ('past', 2), ('allpast', 1)])})
                 x = g.r.random()
                 if x < 0.12:
-                    sp['owner'] = g.pick([str(g.pick(peers)), 'u%d' % g.pick(UIDS[:nusers]), 'nobody', '4711'])
+                    sp['owner'] = g.pick([str(g.pick(peers)), 'u%d' % g.pick(peers[:nusers]), 'nobody', '4711'])
                 elif x < 0.22:
-                    sp['setuid'] = g.pick([str(g.pick(peers)), '0', 'root', 'u%d' % g.pick(UIDS[:nusers])])
+                    sp['setuid'] = g.pick([str(g.pick(peers)), '0', 'root', 'u%d' % g.pick(peers[:nusers])])
                     if g.chance(0.5):
                         sp['setgid'] = g.pick(['0', str(g.pick(peers))])
                 elif x < 0.27 and not opts.get('no_nodtstart'):
@@ -418,7 +432,7 @@ def gen_c11(seed, tier='quick', opts=None):
                   'linger': round(g.uni(0.02, 1.5), 3),
                   'via': 'echsq' if g.chance(0.7) else 'raw'}
             if g.chance(0.08):
-                op['cal'] = {'owner': g.pick([str(g.pick(peers)), 'u%d' % g.pick(UIDS[:nusers])])}
+                op['cal'] = {'owner': g.pick([str(g.pick(peers)), 'u%d' % g.pick(peers[:nusers])])}
             if g.chance(0.05):
                 # hang up without reading the replies (only when the request
                 # names every UID once: what such a request did is read off
@@ -445,6 +459,23 @@ def gen_c11(seed, tier='quick', opts=None):
                 path += '?' + '&'.join('tuid=' + g.pick(pool + ['nosuch@sim']).replace(' ', '%20')
                                        for _i in range(g.rint(1, 3)))
             ops.append({'t': round(t, 4), 'op': 'get', 'peer': peer, 'path': path})
+    # changes on both sides of a periodic checkpoint, listed right after being acknowledged
+    # (the queue listing is served from the user's checkpoint file)
+    if g.chance(opts.get('p_cptail', 0.3)):
+        for rnd in range(g.rint(1, 3)):
+            t += 61 + g.uni(0, 5)
+            for _ in range(g.rint(1, 5)):
+                peer = g.pick(peers)
+                uid = g.pick(pool) if g.chance(0.5) else 'c%d@sim' % len(tasks)
+                sp = arith_spec(g, uid, t, horizon + 400, {'max_occ': 6, 'p_rule2': 0, 'p_rdate': 0, 'where': 'future'})
+                tk = finish_task(len(tasks), sp, lo=t0 - 10)
+                tasks.append(tk)
+                ops.append({'t': round(t, 4), 'op': 'add', 'peer': peer, 'tasks': [tk['id']],
+                            'linger': round(g.uni(0.02, 0.3), 3), 'via': g.pick(['echsq', 'raw'])})
+                t += g.uni(0.05, 1.0)
+                if g.chance(0.7):
+                    ops.append({'t': round(t, 4), 'op': 'get', 'peer': peer, 'path': g.pick(['/queue', '/queue', '/sched'])})
+                    t += g.uni(0.05, 0.5)
     # a burst of concurrently open connections (33..64 must all be served, >64 refused)
     if g.chance(opts.get('p_burst', 0.12)):
         n = g.wpick([(g.rint(33, 40), 3), (g.rint(41, 64), 2), (g.rint(65, 90), 1)])
@@ -493,7 +524,7 @@ def gen_c06(seed, tier='quick', opts=None):
     g = G(seed)
     opts = dict(opts or {})
     t0 = T_BASE + g.rint(0, 86400 * 365 * 8)
-    nusers = g.wpick([(1, 3), (2, 3), (g.rint(3, 6), 2), (g.rint(17, 20), 0.25 if tier == 'quick' else 0.8)])
+    nusers = g.wpick([(1, 3), (2, 3), (g.rint(3, 6), 2), (g.rint(17, 20), 0.4 if tier == 'quick' else 0.8)])
     users = [{'uid': 1000 + i, 'gid': 1000 + i, 'name': 'u%d' % (1000 + i)} for i in range(nusers)]
     cfg = base_cfg(g, t0)
     cfg['late'] = [0.0, 1.0, 0.0, 0.01]
@@ -549,6 +580,24 @@ def gen_c06(seed, tier='quick', opts=None):
             uid = g.pick(sorted(owners))
             ops.append({'t': round(t, 3), 'op': 'cancel', 'peer': owners[uid], 'uids': [uid], 'linger': 0.1})
             t += 0.5
+        if nusers > 6 and g.chance(0.7):
+            # every user changes something in this checkpoint interval, more
+            # users than the daemon keeps marks for; some cancel all they have
+            order = list(users)
+            g.r.shuffle(order)
+            for u in order:
+                mine = sorted(x for x, o in owners.items() if o == u['uid'])
+                if mine and g.chance(0.45):
+                    ops.append({'t': round(t, 3), 'op': 'cancel', 'peer': u['uid'], 'uids': mine, 'linger': 0.1})
+                else:
+                    uid = 'n%d@sim' % len(tasks)
+                    sp = arith_spec(g, uid, t, horizon, {'max_occ': 6, 'p_rule2': 0, 'p_rdate': 0, 'where': 'future', 'no_pre2001': True})
+                    tk = finish_task(len(tasks), sp, lo=t0 - 10)
+                    tasks.append(tk)
+                    owners[uid] = u['uid']
+                    ops.append({'t': round(t, 3), 'op': 'add', 'peer': u['uid'], 'tasks': [tk['id']],
+                                'linger': 0.1, 'via': g.pick(['echsq', 'raw'])})
+                t += g.uni(0.05, 0.6)
     t += 0.7
     ops.append({'t': round(t, 3), 'op': 'mark', 'id': 1})
     trig = g.wpick([('timer', 4), ('get', 2), ('shutdown', 3)])
